@@ -1,5 +1,7 @@
 """C05 — STRICT accepts a subset of TOLERANT and enforces what validate() checks.
 
+M: HandlesMC - kept traversal handles x assigning x attaching x writing through handles: cardinality is kept under
+   STRICT along every history, and what STRICT accepts TOLERANT accepts with the same result.
 M: StrictnessMC — two instances of the reference container (Strict = TRUE / FALSE) stepped over the STRICT graph:
    every outcome STRICT accepts is an outcome TOLERANT accepts; STRICT-reachable states are consistent.
 R: TLC's strict graph paths and simulated walks are executed in lock-step on a STRICT and a TOLERANT copy of real
@@ -41,7 +43,7 @@ def lockstep_tree(args):
     kind, version, seqs = args
     out = []
     for seq in seqs:
-        ws = tree.World(tree.Concrete(kind, version, True))
+        ws = tree.World(tree.Concrete(kind, version, True, poison=True))
         wt = tree.World(tree.Concrete(kind, version, False))
         for k, op in enumerate(seq):
             res = {}
@@ -171,7 +173,7 @@ def lines_of(enc):
 
 
 def signature(e, clause):
-    sig = {"clause": clause, "what": e["what"].split(":")[0], "conc": e["conc"] if e["what"].startswith("api") else "text",
+    sig = {"clause": clause, "what": e["what"].split(":")[0], "conc": e["conc"] if e["what"].startswith(("api", "handle")) else "text",
            "out_s": e["out_s"], "out_t": e["out_t"], "kinds": ",".join(sorted(set(k for k in e["kinds_s"] if k != "missing")))}
     if clause == "encoding_differs_between_levels":
         # diagnostic: same segment lines in another order, or content missing on one side?
@@ -182,6 +184,11 @@ def signature(e, clause):
             miss = [x for a, b in zip(ls, lt) for x in b if x not in a]
             sig["difference"] = "z_segment_missing_under_strict" if miss and all(x[:1] == "Z" for x in miss) else "other"
     return sig
+
+
+def json_dumps(x):
+    import json
+    return json.dumps(x, sort_keys=True)
 
 
 def run(ctx):
@@ -238,6 +245,38 @@ def run(ctx):
             pj.append((v, items[k::4]))
     for part in pmap(parse_lockstep, pj):
         events.extend(part)
+    # kept traversal handles x attaching x assigning: every history of HandlesMC at both levels
+    from . import handles
+    hev = []
+    for cfgname in (["HandlesMC_q.cfg"] if quick else ["HandlesMC_t.cfg", "HandlesMC_t2.cfg"]):
+        rh, hists = handles.histories(cfgname)
+        if rh.violated or not rh.completed:
+            ctx.machinery_failure("HandlesMC %s: %r\n%s" % (cfgname, rh.violated, rh.raw[-1200:]))
+        ctx.add_mc(rh, "HandlesMC (%s): CardinalityKept, SubsetOfTolerant, TypeOK over every history of taking handles, "
+                       "assigning, attaching and writing through handles" % cfgname)
+        ctx.extra.setdefault("handle_histories", 0)
+        if quick:
+            hists = rnd.sample(hists, min(len(hists), 4000))
+        ctx.extra["handle_histories"] += len(hists)
+        hj = [(kind, hists[k::5]) for kind in ("seg", "msg", "grp") for k in range(5)]
+        for a, b in pmap(handles.lockstep, hj):
+            hev.extend(a)
+            events.extend(b)
+    for i, e in enumerate(hev):
+        e["id"] = i + 1
+    ctx.evaluations += len(hev)
+    hfailed, _ = judge(ctx, "HandlesTrace", "HandlesTrace.cfg", [{k: e[k] for k in ("id", "hist", "s", "t")} for e in hev])
+    hby = {e["id"]: e for e in hev}
+    for i, cl in sorted(hfailed.items()):
+        e = hby[i]
+        clause, step = (cl[0], cl[1]) if isinstance(cl, tuple) else (cl, 0)
+        op = e["hist"][step - 1] if step else {}
+        prior = sorted(set("%s:%s" % (o["op"], o["n"]) for o in e["hist"][:max(step - 1, 0)] if o["n"] == op.get("n")))
+        ctx.fail({"clause": clause, "what": "handle", "conc": e["conc"], "op": op.get("op", ""), "how": op.get("how", ""),
+                  "after": ",".join(prior)},
+                 {"clause": clause, "step": step, "conc": e["conc"], "hist": e["hist"], "strict": e["s"], "tolerant": e["t"]})
+    for e in hev:
+        ctx.nontrivial(("handles", e["conc"], json_dumps(e["hist"])))
     # identical observations once
     import json
     uniq = {}
@@ -264,5 +303,8 @@ def run(ctx):
                 "of Segment PID and Group ADT_A01_INSURANCE (a sequence is followed until STRICT refuses a step); segment lines "
                 "of (quick: 25 per version x 4 versions; thorough: 400 x 12) segments with valid leaves and single deviations "
                 "(invalid / over-long leaf, repetitions, extra components and subcomponents, extra fields), leaf pools of every "
-                "base datatype, fields, components and messages parsed at both levels; non-trivial = accepted under STRICT")
+                "base datatype, fields, components and messages parsed at both levels; every history of HandlesMC (quick: 4000 "
+                "sampled of length <= 4; thorough: all of length <= 4 with six ways of attaching and <= 5 with one) on Segment "
+                "PID, Message ADT_A01 and Group ADT_A01_INSURANCE at both levels, judged against Handles!Step and by the "
+                "STRICT/TOLERANT relation; non-trivial = accepted under STRICT")
     ctx.assumptions += ["validator errors are classified from their text (missing / limit / invalid / unknown / datatype)"]
